@@ -12,6 +12,8 @@ BASE = ["-std=gnu++17", "-g", "-O1", "-DCTPG_VERIF", "-fno-omit-frame-pointer", 
 ENGINES = {
     # name: (source, compiler, flags, libs)
     "e_grammar": ("e_grammar.cpp", "clang++", BASE + SAN, ["-lrapidcheck", "-lpthread"]),
+    "e_values": ("e_values.cpp", "clang++", BASE + SAN, ["-lrapidcheck", "-lpthread"]),
+    "e_values_mo": ("e_values.cpp", "clang++", BASE + SAN + ["-DVALUES_MOVE_ONLY"], ["-lrapidcheck", "-lpthread"]),
     "e_helpers": ("e_helpers.cpp", "clang++", ["-std=gnu++17", "-O0", "-DCTPG_VERIF", "-fbracket-depth=1024"], ["-lrapidcheck", "-lpthread"]),
     "e_lexer": ("e_lexer.cpp", "clang++", BASE + SAN + ["-DCTPG_VERIF_BOUNDS"], ["-lrapidcheck", "-lpthread"]),
     "e_regex": ("e_regex.cpp", "clang++", BASE + SAN + ["-DCTPG_VERIF_BOUNDS"], ["-lrapidcheck", "-lpthread"]),
